@@ -140,6 +140,12 @@ mod verif_kani {
         kani::cover!(count_new_lines(v) == 5);
     }
 
+    // MEASURED, out of reach: write_long_bracket.  With bstr::ByteSlice::find stubbed by a naive
+    // search (the real one reaches inline assembly: "InlineAsm is not currently supported by Kani")
+    // a round-trip harness on the single ENUMERATED value `a]]b]=` still does not finish in 400 s
+    // (the final `format!` with four arguments).  The suspected early-closing defect (value tail
+    // completing the closing bracket) is therefore neither reported nor listed.
+
     //@harness props=C02 kind=mustfail fns=should_break_with_space
     //@ desc="vacuity witness: the false claim `should_break_with_space is always true` must be refuted"
     #[kani::proof]
